@@ -55,3 +55,16 @@ Proof.
   intros tr1 tr2 s1 s2 s3 a x1 o1 o2 H. apply stop_barrier_run. exact (sys_ok_run _ _ _ sys_ok_init H).
 Qed.
 Print Assumptions C04_nothing_queued_behind_a_stop_is_handled.
+
+(** Ok exactly when termination was graceful, at the one event that decides it: the end of the
+    task resolves the notifier (what awaiting an address, [halt] and [try_halt] wait for) with
+    "fired" exactly when the task returned out of the phase entered when the last [stopped()]
+    hook returned; on every other way out - a failed or panicking [started], a panic, a fatal
+    handler timeout, a cancellation, a return from anywhere else - it is dropped, and every waiter
+    gets the error. (With C14_answer_flips_only_when_the_task_ends: at no other event at all.) *)
+Theorem C04_fired_exactly_on_a_return_after_the_last_stopped_hook :
+  forall s a how s' x, step s (EvTaskEnd a how) = Acc s' -> actors s a = Some x ->
+  exists x', actors s' a = Some x' /\
+    a_notif x' = match how, a_phase x with EndReturned, PhExiting => NFired | _, _ => NDropped end.
+Proof. exact taskend_notif04. Qed.
+Print Assumptions C04_fired_exactly_on_a_return_after_the_last_stopped_hook.
